@@ -283,11 +283,19 @@ pub fn pn_alphabet(channels: &[u8], values: &[u8], with_polls: bool, tick: Optio
                 a.push(Ev::cc(c, n, v));
             }
         }
-        // non-contributing representatives on the channel
-        a.push(Ev::cc(c, 7, 1));
-        a.push(Ev::cc(c, 39, 1));
-        a.push(Ev::cc(c, 95, 1));
-        a.push(Ev::cc(c, 102, 1));
+        // non-contributing controllers on the channel: neighbours of the contributing ones and
+        // the channel mode controllers (first channel: every non-contributing controller number)
+        if c == channels[0] && channels.len() == 1 {
+            for n in 0u8..128 {
+                if !is_pn_controller(n) {
+                    a.push(Ev::cc(c, n, 1));
+                }
+            }
+        } else {
+            for n in [5u8, 7, 37, 39, 95, 102, 120, 121, 123, 127] {
+                a.push(Ev::cc(c, n, 1));
+            }
+        }
         a.push(Ev::Msg(0x90 | c, 6, 38));
         a.push(Ev::Msg(0xE0 | c, 98, 99));
         if with_polls {
@@ -361,7 +369,7 @@ pub fn run_c11(cfg: &Cfg, rep: &mut Report) {
             json!({"states":st.states,"transitions":st.transitions,"depth":st.depth,"fixpoint_reached":st.fixpoint,"alphabet":alpha.len(),"values":values}),
         );
     }
-    let total = cfg.size(2_000, 4_000_000, 200_000_000);
+    let total = cfg.size(2_000, 12_000_000, 300_000_000);
     par(cfg, rep, |shard, nsh, rep| {
         let mut rng = Rng::derive(cfg.seed, 0xC11_00 + shard as u64);
         let per = total / nsh as u64;
@@ -640,7 +648,7 @@ pub fn run_c10(cfg: &Cfg, rep: &mut Report) {
             }
         }
         // running forms after one number selection
-        let runs = cfg.size(20, 3_000, 100_000) / nsh as u64;
+        let runs = cfg.size(20, 12_000, 300_000) / nsh as u64;
         for r in 0..runs {
             junk(&mut mon, &mut hist, &mut rng, rep);
             let base = random_message(&mut rng);
